@@ -947,8 +947,10 @@ def socks_segmentations(data, thorough=False):
     """whole, split at every position (capped), byte at a time"""
     segs = [('whole', [data])]
     n = len(data)
-    cuts = range(1, n) if n <= 40 or thorough else \
-        list(range(1, 30)) + list(range(n - 10, n))
+    if n <= 40 or (thorough and n <= 80):
+        cuts = range(1, n)
+    else:
+        cuts = list(range(1, 30)) + list(range(n - 10, n))
     for i in cuts:
         segs.append((f'split@{i}', [data[:i], data[i:]]))
     if n <= 64:
